@@ -15,9 +15,11 @@ import (
 	"io"
 	"net/http"
 	"net/http/httptest"
+	"sort"
 	"strings"
 	"sync"
 	"testing"
+	"time"
 
 	"github.com/golang/snappy"
 	"github.com/klauspost/compress/zstd"
@@ -98,6 +100,8 @@ type c16Case struct {
 	reqs     []c16Req
 	limitRel string    // how the limit was chosen (stat only)
 	custom   []string  // header names registered with WithDecoder (the harness's xor decoder)
+	passNil  []string  // header names registered with WithDecoder(name, fn) where fn returns (nil, nil): "nothing to decode"
+	conc     *c16Conc  // a concurrency case instead of a request script
 	then     []c16Case // further servers built AFTER this one in the same process (same case), each with its own requests
 }
 
@@ -281,6 +285,26 @@ func c16Corpus() []c16Case {
 				{mode: "pre", hdr: other, lib: c16LibOf(other), lvl: 1, body: c16Body{kind: 't', n: 500}},
 			}},
 		}})
+	}
+	// WithDecoder(name, nil-returning fn): the body is NOT re-wrapped by the decompressor, so only the wire-side
+	// interceptor limits it — for a request that does carry a (non-empty) Content-Encoding
+	for _, ct := range []string{"none", "gzip"} {
+		cs = append(cs, c16Case{algosNil: true, max: 1000, ct: ct, passNil: []string{"x-raw"}, reqs: []c16Req{
+			{mode: "client", hdr: "x-raw", body: c16Body{kind: 't', n: 999}},
+			{mode: "client", hdr: "x-raw", body: c16Body{kind: 'r', n: 1000, seed: 3}},
+			{mode: "client", hdr: "x-raw", body: c16Body{kind: 'r', n: 1001, seed: 4}},
+			{mode: "client", hdr: "x-raw", body: c16Body{kind: 'z', n: 50000}},
+			{mode: "client", body: c16Body{kind: 't', n: 1001}},
+		}})
+	}
+	cs = append(cs, c16Case{algos: []string{"gzip"}, max: 64, ct: "none", passNil: []string{"zstd", "identity"}, custom: []string{"x-xor"}, reqs: []c16Req{
+		{mode: "client", hdr: "zstd", body: c16Body{kind: 't', n: 65}},
+		{mode: "client", hdr: "identity", body: c16Body{kind: 't', n: 64}},
+		{mode: "pre", hdr: "x-xor", lib: "xor", body: c16Body{kind: 't', n: 200}},
+	}})
+	// concurrency: handlers that close the body themselves, then overlapping requests (every algorithm)
+	for i, ct := range []string{"gzip", "zstd", "zlib", "snappy", "lz4", "deflate", "none"} {
+		cs = append(cs, c16Case{conc: &c16Conc{k: 4 + 2*i, closes: 1 + i%2, rounds: 2, ct: ct}})
 	}
 	return cs
 }
@@ -471,6 +495,12 @@ func c16AlgosToken(cs c16Case) string {
 
 func c16Run(t *testing.T, out *vOut, c int, cs c16Case) {
 	out.Linef("case %d", c)
+	if cs.conc != nil {
+		c16ConcRun(t, out, c, *cs.conc)
+		out.Linef("nt")
+		out.Linef("end")
+		return
+	}
 	nt := c16Stage(t, out, cs)
 	for _, next := range cs.then {
 		c16Stage(t, out, next)
@@ -483,15 +513,21 @@ func c16Run(t *testing.T, out *vOut, c int, cs c16Case) {
 }
 
 func c16CustomToken(cs c16Case) string {
-	if len(cs.custom) == 0 {
+	if len(cs.custom)+len(cs.passNil) == 0 {
 		return "-"
 	}
 	var parts []string
 	for _, a := range cs.custom {
-		parts = append(parts, vHex(a))
+		parts = append(parts, vHex(a)+"/xor")
+	}
+	for _, a := range cs.passNil {
+		parts = append(parts, vHex(a)+"/nil")
 	}
 	return strings.Join(parts, ",")
 }
+
+// c16NilDecoder: a caller-supplied decoder that has nothing to decode (same convention as the built-in "" entry)
+func c16NilDecoder(io.ReadCloser) (io.ReadCloser, error) { return nil, nil }
 
 // c16Stage builds one server (+ client) and runs its requests; servers of earlier stages of the case were built
 // before in the same process. Returns whether the stage was non-trivial.
@@ -511,6 +547,9 @@ func c16Stage(t *testing.T, out *vOut, cs c16Case) bool {
 	var opts []ToServerOption
 	for _, name := range cs.custom {
 		opts = append(opts, WithDecoder(name, c16XorDecoder))
+	}
+	for _, name := range cs.passNil {
+		opts = append(opts, WithDecoder(name, c16NilDecoder))
 	}
 	srv, err := hss.ToServer(context.Background(), componenttest.NewNopHost(), componenttest.NewNopTelemetrySettings(), base, opts...)
 	if err != nil {
@@ -654,6 +693,9 @@ func c16Stage(t *testing.T, out *vOut, cs c16Case) bool {
 	if len(cs.custom) > 0 {
 		out.Linef("stat with_decoder 1")
 	}
+	if len(cs.passNil) > 0 {
+		out.Linef("stat with_passthrough_decoder 1")
+	}
 	return nt
 }
 
@@ -720,6 +762,24 @@ func c16WithDecoderCase(rnd interface {
 		return c16Body{kind: 'r', n: n, seed: rnd.Uint64() % 1000003}
 	}
 	a := c16Case{algos: algos, max: 100000, ct: "none", custom: custom}
+	if rnd.IntN(2) == 0 {
+		// a pass-through decoder (sometimes shadowing a built-in name that is not otherwise registered) and a small limit
+		name := "x-raw"
+		if rnd.IntN(3) == 0 {
+			name = builtins[rnd.IntN(len(builtins))]
+			for _, cn := range custom {
+				if cn == name {
+					name = "x-raw"
+				}
+			}
+		}
+		a.passNil = []string{name}
+		a.max = int64(200 + rnd.IntN(1500))
+		for _, d := range []int{-1, 0, 1, 40 * (1 + rnd.IntN(50))} {
+			n := int(a.max) + d
+			a.reqs = append(a.reqs, c16Req{mode: "client", hdr: name, body: c16Body{kind: 'r', n: n, seed: rnd.Uint64() % 1000003}})
+		}
+	}
 	for _, name := range custom {
 		a.reqs = append(a.reqs, c16Req{mode: "pre", hdr: name, lib: "xor", body: body()})
 	}
@@ -728,6 +788,9 @@ func c16WithDecoderCase(rnd interface {
 			lib := c16LibOf(b)
 			isCustom := false
 			for _, cn := range custom {
+				isCustom = isCustom || cn == b
+			}
+			for _, cn := range a.passNil {
 				isCustom = isCustom || cn == b
 			}
 			if isCustom {
@@ -764,6 +827,177 @@ func c16WithDecoderCase(rnd interface {
 	return a
 }
 
+// ---- concurrency (monitor): handlers that close the body themselves, then overlapping requests ----
+
+type c16Conc struct {
+	k      int // overlapping requests per round
+	closes int // how often each handler calls r.Body.Close() after reading
+	rounds int
+	ct     string
+	lvl    int
+}
+
+type c16ConcGot struct {
+	data []byte
+	err  error
+}
+
+func c16ConcBody(c, round, i int, rnd interface{ IntN(int) int }) []byte {
+	// self-describing: a tag, then pseudo-random bytes derived from the tag
+	tag := fmt.Sprintf("C16-conc-%d-%d-%d|", c, round, i)
+	n := 300 + rnd.IntN(60000)
+	if rnd.IntN(3) == 0 {
+		n = 200000 + rnd.IntN(100000) // several blocks
+	}
+	b := c16Body{kind: 'r', n: n, seed: uint64(c*1000003 + round*1009 + i)}.bytes()
+	if rnd.IntN(2) == 0 {
+		for j := range b { // compressible variant
+			b[j] = 'a' + b[j]%7
+		}
+	}
+	return append([]byte(tag), b...)
+}
+
+func c16ConcRun(t *testing.T, out *vOut, c int, cc c16Conc) {
+	rnd := vRand(c)
+	var mu sync.Mutex
+	got := map[string]c16ConcGot{}
+	var arrived int
+	var gate chan struct{}
+	base := http.HandlerFunc(func(w http.ResponseWriter, r *http.Request) {
+		id := r.Header.Get("X-C16-Id")
+		if r.Header.Get("X-C16-Barrier") != "" {
+			// make the requests of a round overlap for certain: nobody reads before all decoders exist
+			mu.Lock()
+			arrived++
+			if arrived == cc.k {
+				close(gate)
+			}
+			g := gate
+			mu.Unlock()
+			select {
+			case <-g:
+			case <-time.After(3 * time.Second):
+			}
+		}
+		data, err := io.ReadAll(r.Body)
+		for i := 0; i < cc.closes; i++ {
+			_ = r.Body.Close()
+		}
+		mu.Lock()
+		got[id] = c16ConcGot{data, err}
+		mu.Unlock()
+		w.WriteHeader(http.StatusOK)
+	})
+	hss := &ServerConfig{Endpoint: "localhost:0"}
+	srv, err := hss.ToServer(context.Background(), componenttest.NewNopHost(), componenttest.NewNopTelemetrySettings(), base)
+	if err != nil {
+		t.Fatalf("ToServer: %v", err)
+	}
+	ts := httptest.NewServer(srv.Handler)
+	defer ts.Close()
+	hcs := &ClientConfig{Endpoint: ts.URL, Compression: configcompression.Type(cc.ct), CompressionParams: newCompressionParams(configcompression.Level(cc.lvl))}
+	client, err := hcs.ToClient(context.Background(), componenttest.NewNopHost(), componenttest.NewNopTelemetrySettings())
+	if err != nil {
+		t.Fatalf("ToClient: %v", err)
+	}
+	defer client.CloseIdleConnections()
+	sent := map[string][]byte{}
+	statuses := map[string]int{}
+	do := func(id string, body []byte, barrier bool) {
+		req, _ := http.NewRequest(http.MethodPost, ts.URL, bytes.NewReader(body))
+		req.Header.Set("X-C16-Id", id)
+		if barrier {
+			req.Header.Set("X-C16-Barrier", "1")
+		}
+		resp, err := client.Do(req)
+		st := -1
+		if err == nil {
+			_, _ = io.Copy(io.Discard, resp.Body)
+			resp.Body.Close()
+			st = resp.StatusCode
+		}
+		mu.Lock()
+		statuses[id] = st
+		mu.Unlock()
+	}
+	total := 0
+	for round := 0; round < cc.rounds; round++ {
+		// phase 1: one or two sequential requests whose handler closes the body (before the middleware does)
+		for i := 0; i < 1+round%2; i++ {
+			id := fmt.Sprintf("r%d-pre%d", round, i)
+			sent[id] = c16ConcBody(c, round, 100+i, rnd)
+			do(id, sent[id], false)
+			total++
+		}
+		// phase 2: k requests overlapping in time
+		mu.Lock()
+		arrived, gate = 0, make(chan struct{})
+		mu.Unlock()
+		var wg sync.WaitGroup
+		for i := 0; i < cc.k; i++ {
+			id := fmt.Sprintf("r%d-c%d", round, i)
+			sent[id] = c16ConcBody(c, round, i, rnd)
+			total++
+			wg.Add(1)
+			go func(id string, body []byte) {
+				defer wg.Done()
+				do(id, body, true)
+			}(id, sent[id])
+		}
+		wg.Wait()
+	}
+	out.Linef("op conc k=%d closes=%d rounds=%d ct=%s lvl=%d total=%d", cc.k, cc.closes, cc.rounds, vHex(cc.ct), cc.lvl, total)
+	exact := 0
+	var ids []string
+	for id := range sent {
+		ids = append(ids, id)
+	}
+	sort.Strings(ids)
+	for _, id := range ids {
+		g, ok := got[id]
+		switch {
+		case ok && g.err == nil && bytes.Equal(g.data, sent[id]) && statuses[id] == 200:
+			exact++
+		default:
+			// classify: did this handler see (part of) another request's body?
+			foreign := ""
+			for _, other := range ids {
+				if other != id && len(g.data) > 0 && bytes.Contains(g.data, []byte(fmt.Sprintf("C16-conc-%d-", c))) &&
+					bytes.Contains(g.data, sent[other][:bytes.IndexByte(sent[other], '|')+1]) {
+					foreign = other
+					break
+				}
+			}
+			sig := "C16/concurrency/handler-read-damaged-body"
+			if foreign != "" {
+				sig = "C16/concurrency/handler-read-another-requests-body"
+			}
+			out.Linef("viol sig=%s ct=%s k=%d closes=%d id=%s foreign=%s ran=%v readerr=%v got=%d want=%d status=%d", sig, cc.ct, cc.k, cc.closes, id, foreign, ok, g.err != nil, len(g.data), len(sent[id]), statuses[id])
+		}
+	}
+	out.Linef("obs conc total=%d exact=%d", total, exact)
+	out.Linef("stat conc_cases 1")
+	out.Linef("stat conc_requests %d", total)
+	out.Linef("stat conc_ct_%s 1", strings.ReplaceAll(cc.ct, "-", "_"))
+}
+
+func c16ConcGen(rnd interface{ IntN(int) int }) c16Case {
+	ct := []string{"gzip", "gzip", "zstd", "zlib", "deflate", "snappy", "lz4", "none"}[rnd.IntN(8)]
+	return c16Case{conc: &c16Conc{k: 4 + rnd.IntN(13), closes: rnd.IntN(3), rounds: 1 + rnd.IntN(3), ct: ct, lvl: c16ClientLevel(rnd, ct)}}
+}
+
+// TestVerifC16Conc: concurrency cases only (run under -race in the thorough tier)
+func TestVerifC16Conc(t *testing.T) {
+	out := vOpen(t)
+	defer out.Close()
+	out.Linef("model c16 1")
+	for _, c := range vCases(vN(40)) {
+		c16Run(t, out, c, c16ConcGen(vRand(c)))
+		out.Flush()
+	}
+}
+
 func TestVerifC16(t *testing.T) {
 	out := vOpen(t)
 	defer out.Close()
@@ -779,8 +1013,10 @@ func TestVerifC16(t *testing.T) {
 		if c < len(corpus) {
 			cs = corpus[c]
 		} else {
-			if rnd.IntN(8) == 0 {
+			if k := rnd.IntN(24); k < 3 {
 				cs = c16WithDecoderCase(rnd)
+			} else if k == 3 {
+				cs = c16ConcGen(rnd)
 			} else {
 				cs = c16Gen(c, rnd, vThorough())
 			}
